@@ -715,6 +715,22 @@ def r14_client_decoder_contains(ck, cx, rule='R14'):
     ck.floor(rule, nraise, 2, 'raising paths of ClientDecoder.decode')
 
 
+
+def r17_unknown_length_read_covers_an_adu(ck, cx, rule='R17'):
+    """When the reply length cannot be predicted the datagram client reads Defaults.ReadSize bytes in one recvfrom(): a datagram longer
+    than that is truncated by the kernel and the rest is gone -- a healthy exchange ends in an error object.  The largest legal reply
+    ADU on the socket framing is 7 + 253 = 260 bytes."""
+    ck.rule(rule, 'the fallback read size (Defaults.ReadSize) covers a maximum-size ADU of the socket framing (>= 260 bytes)')
+    d = cx.idx.cls('pymodbus.constants.Defaults')
+    v = cx.ce.try_ev(ast.Name(id='ReadSize', ctx=ast.Load()), d.mod, d, default=None)
+    tm = cx.idx.cls('pymodbus.transaction.ModbusTransactionManager')
+    uses = [n for f in tm.methods.values() for n in ast.walk(f.node) if isinstance(n, ast.Attribute) and n.attr == 'ReadSize']
+    ck.ob(rule, d.qn, 'Defaults.ReadSize >= 260', not uses or (isinstance(v, int) and v >= 260), detail='fallback-read-size %s' % v, loc=d.loc,
+          message='Defaults.ReadSize = %s, but the UDP client reads its reply with one recvfrom(ReadSize) when the length is not predicted: a reply '
+                  'of up to 260 bytes (125 registers, 2000 coils) is truncated and the call returns an error object although the link is healthy' % v)
+    ck.floor(rule, 1, 1, 'constant')
+
+
 def run(ck, tier):
     cx = Ctx()
     ck.guard(r8_send_wait_loop_progress, ck, cx)
@@ -745,4 +761,11 @@ def run(ck, tier):
     from ..share import import_findings as _imp2
     ck.rule('R16', 'the client is ready for the next call after any fault: what an earlier exchange left in the framer is dropped before the next request goes out (shared with C08 R4)')
     _imp2(ck, 'C08', 'R16', ('R4',), 'one undecodable reply makes every later transaction on this client fail')
+    ck.guard(r17_unknown_length_read_covers_an_adu, ck, cx)
+    from .. import strtypes as _st
+    ck.rule('R18', 'hexlify_packets, evaluated with the receive buffer on every reset / processing path outside any log-level guard, is total: what it joins is text')
+    ck.guard(_st.rule_join_total, ck, cx, 'R18', ('pymodbus.utilities.hexlify_packets',), 'the client call raises instead of returning an error object')
+    from .. import strtypes as _st2
+    ck.rule('R19', 'the text of the library exceptions is built totally: a __str__ that concatenates an attribute is given text by every construction site')
+    ck.guard(_st2.rule_exception_text_total, ck, cx, 'R19', 'formatting the caught exception raises inside the client call')
     return cx.idx
